@@ -82,7 +82,7 @@ def generate(rng, tier, index):
         pool = NS_POOL + [gen.RDF_NS, gen.EX[:-1], gen.EX_DEEP[:-1]]
         scen["ignore"] = rng.sample(pool, rng.randint(1, 3))
         scen["target"] = gen.gen_target(rng, triples, allow_shape_map=False, type_prop=tp)
-        scen["channel"] = rng.choice(["file", "raw"])
+        scen["channel"] = rng.choice(["file", "raw", "tsv_file", "tsv_raw", "ttl_iter_file"])
         scen["orders"] = [p1, list(p1)]
     return scen
 
@@ -222,6 +222,13 @@ def execute(scen, scratch):
             doc = gen.to_nt(s1)
             if ch == "file":
                 sut_kw = {"graph_file_input": sim.write_file("sut.nt", doc)}
+            elif ch == "tsv_file":
+                sut_kw = {"graph_file_input": sim.write_file("sut.tsv", gen.to_tsv(s1)), "input_format": "tsv_spo"}
+            elif ch == "tsv_raw":
+                sut_kw = {"raw_graph": gen.to_tsv(s1), "input_format": "tsv_spo"}
+            elif ch == "ttl_iter_file":
+                sut_kw = {"graph_file_input": sim.write_file("sut.ttl", gen.to_turtle(s1, group=False, dialect="iter", stable_labels=True)),
+                          "input_format": "turtle_iter"}
             else:
                 sut_kw = {"raw_graph": doc}
             out = run_once(_kw(scen, namespaces_to_ignore=list(ign), **sut_kw))
@@ -237,7 +244,7 @@ def execute(scen, scratch):
             ref = run_once(_kw(scen, graph_file_input=f_filt, instances_file_input=f_full))
             runs += 1
             verdicts += [("ignore", out.brief(), ref.brief())]
-            violations += _diff(scen, ref, out, "ignore_equals_filtered_input", relax=False)
+            violations += _diff(scen, ref, out, "ignore_equals_filtered_input", relax=(ch in ("tsv_file", "tsv_raw", "ttl_iter_file")))
             if out.kind == "ok":
                 texts.append(out.text)
     n_shapes = shape_stats(texts[0])[0] if texts else 0
